@@ -1,6 +1,7 @@
 /-
   vd_c12 — replays the harness's operation lines (harness/c12.cpp, header comment) through the C12 model,
-  compares the observations, and evaluates the specification predicate on the implementation's own trace.
+  compares the observations (the glue is the one of IcingaModel/C12/Trace.lean — `zonesOf`, `newNames`, `outObs`, `rot` —
+  with the oracle inputs taken from the line instead of `Codec`/`may`), and evaluates the specification predicate on the implementation's own trace.
 
   Output: MISMATCH line=<n> case=<k> op=<op> impl=<..> model=<..> · SPECFAIL line=<n> case=<k> clause=<name>
           (clause `no_crash`: the harness reported that the node process died in an operation) ·
@@ -9,6 +10,7 @@
 import IcingaModel.Common.Proto
 import IcingaModel.C12.Model
 import IcingaModel.C12.Spec
+import IcingaModel.C12.Trace
 
 open Icinga Icinga.C12 Icinga.C20 Icinga.Proto
 
@@ -29,24 +31,17 @@ def unhex (s : String) : Option Bytes := if s == "-" then some [] else unhexL s.
 def fnv (bs : Bytes) : UInt64 :=
   bs.foldl (fun h b => (h ^^^ b.toUInt64) * 1099511628211) 1469598103934665603
 
-structure Node where
+structure DNode where
   snd : Sender := {}
   peers : List Peer := []
   paFirst : Bool := false
   table : List (Bytes × Entry) := []
 
-def Node.peer (n : Node) (i : Nat) : Peer := n.peers.getD i { related := false, dur := 0, lpos := 0 }
-def Node.setPeer (n : Node) (i : Nat) (f : Peer → Peer) : Node := { n with peers := n.peers.set i (f (n.peer i)) }
-def Node.dec (n : Node) (b : Bytes) : Option Entry := (n.table.find? (fun x => x.1 == b)).map (·.2)
-def Node.posStr (n : Node) : String :=
+def DNode.peer (n : DNode) (i : Nat) : Peer := n.peers.getD i { related := false, dur := 0, lpos := 0 }
+def DNode.setPeer (n : DNode) (i : Nat) (f : Peer → Peer) : DNode := { n with peers := n.peers.set i (f (n.peer i)) }
+def DNode.dec (n : DNode) (b : Bytes) : Option Entry := (n.table.find? (fun x => x.1 == b)).map (·.2)
+def DNode.posStr (n : DNode) : String :=
   ",".intercalate ((List.range 3).flatMap (fun i => [toString (n.peer i).lpos, toString (n.peer i).rpos]))
-
-def zonesOf (sec : Option Nat) : List (Bool × List Nat) :=
-  match sec with
-  | none => [(true, [0])]
-  | some 0 => [(true, [0])]
-  | some 4 => [(true, [0]), (false, [1])]
-  | _ => [(false, [1]), (true, [0])]
 
 def parseSec (s : String) : Option (Option Nat) :=
   match s with
@@ -77,8 +72,6 @@ def showOut (o : List OutObs) : String :=
   if o.isEmpty then "-" else ",".intercalate (o.map fun
     | .m id ts => s!"M{id}@{ts}" | .l v => s!"L{v}" | .x => "X")
 
-def outObs (o : List Out) : List OutObs := o.map fun | .msg e => .m e.id e.ts | .setPos v => .l v
-
 def fileTok (s : String) : Option (Option Int) := if s == "cur" then some none else (parseInt? s).map some
 
 /-- Bytes of `file` from offset `k` on replaced by `hx` (a name that does not exist creates the file). -/
@@ -94,13 +87,10 @@ def lsStr (s : Sender) : String :=
   let c := match s.current with | none => "-" | some b => s!"{b.length}:{(fnv b).toNat}"
   (if fs.isEmpty then "-" else ",".intercalate fs) ++ " " ++ c
 
-def newNames (old new : Sender) : List Int :=
-  (new.files.filter (fun f => !old.files.any (·.name == f.name))).map (·.name)
-
 def showNames (l : List Int) : String := if l.isEmpty then "-" else ",".intercalate (l.map toString)
 
 structure DSt where
-  node : Node := {}
+  node : DNode := {}
   sp : SpecSt := {}
   caseNo : Nat := 0
   caseFailed : Bool := false
@@ -130,7 +120,7 @@ def mismatch (d : DSt) (n : Nat) (op impl model : String) : IO DSt := do
   return { d with mismatches := d.mismatches + 1 }
 
 /-- compare, then feed the observed step to the spec -/
-def finish (d : DSt) (n : Nat) (op : String) (node : Node) (implObs modelObs : String) (implPos : String) (ev : Option Ev) : IO DSt := do
+def finish (d : DSt) (n : Nat) (op : String) (node : DNode) (implObs modelObs : String) (implPos : String) (ev : Option Ev) : IO DSt := do
   let mut d := { d with steps := d.steps + 1 }
   let mp := node.posStr
   let mut node := node
@@ -249,7 +239,7 @@ def handle (d : DSt) (n : Nat) (line : String) : IO DSt := do
   | ["rotate", now], [nf, pos] =>
     match parseInt? now, parseOptInt nf with
     | some now, some nf =>
-      let s' := openLog now (rotate now (closeLog node.snd))
+      let s' := rot now node.snd
       let d := if nf.isSome then { d with rotations := d.rotations + 1 } else d
       finish d n "rotate" { node with snd := s' } (nf.map toString |>.getD "-") (showNames (newNames node.snd s')) pos (some (.rotate nf))
     | _, _ => bad
